@@ -617,7 +617,14 @@ def rules(tier):
     from . import carry, c04
     from . import extrema
     from . import precision
-    return [rule_validate, rule_lse, rule_same, rule_dispatch, rule_penalty, rule_ratio, rule_memorder, rule_chain, rule_derivpaths, rule_stop,
+    from . import support, initlayout, shortcut, dispatchimpl
+    return [support.make_rule("R-C12-support", "TweedieDistribution::in_range admits no non-finite target (the predicate is evaluated at +inf, -inf and NaN)",
+                              lambda f: f["d"]["krate"] == "linfa_linear" and f["d"]["name"] == "in_range" and (f["d"].get("self_adt") or "").endswith("TweedieDistribution"),
+                              2, "TweedieDistribution::in_range"),
+            initlayout.make_rule("R-C12-initlayout", "linfa_logistic", "setup_init_params", "ArgminParam", 3),
+            shortcut.make_rule("R-C12-shortcut", {"linfa_linear", "linfa_logistic"}, 1),
+            dispatchimpl.make_rule("R-C12-dispatchimpl", lambda f: f["d"]["krate"] == "linfa_linear" and "/glm/" in fn_file(f) and (f["d"].get("self_adt") or "").split("::")[-1] == "Link", 4, "the GLM links"),
+            rule_validate, rule_lse, rule_same, rule_dispatch, rule_penalty, rule_ratio, rule_memorder, rule_chain, rule_derivpaths, rule_stop,
             carry.make_clone_rule("R-C12-clone", {"linfa_logistic", "linfa_linear"}, 6), carry.make_setter_rule("R-C12-override", {"linfa_logistic", "linfa_linear"}, 8), c04.make_carry_rule("R-C12-carry", {"LogisticRegressionParams", "TweedieRegressorParams"}, 6),
             extrema.make_rule("R-C12-extrema", "the maxima the logistic log-sum-exp / soft-max are shifted by are real maxima: the folds start from -infinity / min_value or from data", lambda f: f["d"]["krate"] == "linfa_logistic", 1, "the max folds of log_sum_exp / softmax in linfa-logistic"),
             precision.make_rule("R-C12-precision", lambda f: f["d"]["krate"] in ("linfa_logistic", "linfa_linear"), 100, "linfa-logistic and linfa-linear"),
